@@ -12,7 +12,8 @@ for P in "$@"; do
   out=$(cd "$V" && VERIF_REPO=$wt VERIF_EVIDENCE_DIR=$wt/.evidence VERIF_REPLAY_DIR=$wt/.replays timeout 900 ./check $P --budget $budget 2>&1)
   rc=$?
   echo "== $P rc=$rc"
-  echo "$out" | grep -E "^violation class|^VIOLATION|^KNOWN|HARNESS|quick:" | cut -c1-300 | head -8
+  echo "$out" | grep -E "^violation class|^VIOLATION|^KNOWN|quick:" | cut -c1-300 | head -8
+  echo "$out" | grep -E "HARNESS" | cut -c1-300 | head -3
   # every replay file must reproduce its violation exactly, in a fresh process
   for r in $(echo "$out" | sed -n 's/^VIOLATION property=[A-Z0-9]* replay=//p' | head -3); do
     rout=$(cd "$V" && VERIF_REPO=$wt timeout 300 ./check $P --replay "$r" 2>&1)
